@@ -136,6 +136,20 @@ def make_call(cls, k):
         from measured.si import Meter as M_
         half = Prefix(10, Decimal(k) + Decimal("0.5"))
         return (lambda: half * (Kibi * M_)), lambda: 1
+    if cls in ("UnpicklePrefix", "UnpickleDimension"):
+        # one thread reads a pickle of an object this process has not built yet while another builds it: both end with the one object
+        import pickle
+        if cls == "UnpicklePrefix":
+            tmpl = pickle.dumps(Prefix(7, 1234567), protocol=2); kk = 2000000 + k
+            blob = tmpl.replace((1234567).to_bytes(4, "little"), kk.to_bytes(4, "little"))
+            assert blob != tmpl
+            return [lambda: pickle.loads(blob), lambda: Prefix(7, kk), lambda: pickle.loads(blob)], lambda: len([p for p in Prefix._known.values() if getattr(p, "base", None) == 7 and getattr(p, "exponent", None) == kk])
+        n = len(Dimension._fundamental)
+        tmpl = pickle.dumps(Dimension(tuple([0, 1234567] + [0] * (n - 2))), protocol=2); kk = 2000000 + k
+        blob = tmpl.replace((1234567).to_bytes(4, "little"), kk.to_bytes(4, "little"))
+        assert blob != tmpl
+        exps = tuple([0, kk] + [0] * (n - 2))
+        return [lambda: pickle.loads(blob), lambda: Dimension(exps), lambda: pickle.loads(blob)], lambda: len([d for d in Dimension._known.values() if getattr(d, "exponents", None) == exps])
     if cls == "PrefixMixed":
         from measured.iec import Kibi
         a = Prefix(10, 1000 + k)
